@@ -520,15 +520,21 @@ def _sh_ops(rank):
     return ops
 
 
-def _sh_run(initial, history):
+def _sh_run(initial, history, frozen=False):
     dims = [SH_DIMS[i] for i in initial]
-    shape = ir.Shape([build(t) for t in dims])
+    shape = ir.Shape([build(t) for t in dims], frozen=frozen)
     bad = []
+    shared = {}  # ONE bindings mapping that the caller keeps updating between evaluations
     for step, op in enumerate(history):
         if op[0] == "free_symbols":
             shape.free_symbols()
         elif op[0] == "evaluate":
             shape.evaluate({k: SH_ENV[k] for k in op[1]})
+        elif op[0] == "evaluate_shared":
+            shared.clear()
+            shared.update({k: SH_ENV[k] for k in op[1]})
+            shape.evaluate(shared)
+            shared.update(SH_ENV)  # ... and completes it afterwards
         else:
             shape[op[1]] = build(SH_DIMS[op[2]])
             dims[op[1]] = SH_DIMS[op[2]]
@@ -566,6 +572,15 @@ def _sh_work(task):
         n += 1
         for clause, detail in _sh_run(initial, h):
             found.setdefault(f"shape_history|{clause}", {"clause": clause, "detail": f"initial={[tree_key(SH_DIMS[i]) for i in initial]} history={list(h)} {detail}", "shape_history": [list(initial), [list(o) for o in h]]})
+    # frozen shapes (what a deserialised model holds) cannot be assigned to: histories of evaluations whose bindings
+    # mapping is one object the caller keeps updating
+    ev = [("evaluate_shared", ks) for ks in ((), ("N",), ("M", "K"), ("N", "M"), ("N", "M", "K"))] + [("free_symbols",)]
+    for frozen in (True, False):
+        for h in itertools.product(ev, repeat=min(depth, 3)):
+            n += 1
+            for clause, detail in _sh_run(initial, h, frozen=frozen):
+                found.setdefault(f"shape_history|{clause}|shared_bindings", {"clause": clause, "detail": f"initial={[tree_key(SH_DIMS[i]) for i in initial]} frozen={frozen} history={list(h)} {detail}",
+                                                                            "shape_history": [list(initial), [list(o) for o in h], frozen]})
     return n, found
 
 
@@ -744,8 +759,9 @@ def replay(obj):
         return tuple(fix(y) for y in x) if isinstance(x, list) else x
 
     if obj.get("shape_history"):
-        initial, hist = obj["shape_history"]
-        bad = _sh_run(tuple(initial), [tuple(tuple(x) if isinstance(x, list) else x for x in o) for o in hist])
+        initial, hist = obj["shape_history"][:2]
+        frozen = obj["shape_history"][2] if len(obj["shape_history"]) > 2 else False
+        bad = _sh_run(tuple(initial), [tuple(tuple(x) if isinstance(x, list) else x for x in o) for o in hist], frozen=frozen)
         return (not [b for b in bad if b[0] == obj["oracle"]]), bad
     inp = obj["input"]
     if isinstance(inp, str):
